@@ -219,11 +219,15 @@ ParentKeyOf(c) == ObjKey(c.parent)
 IsParentReq(e, c) == e.kind = c.parent.kind /\ e.name = c.parent.name /\ e.ns = c.parent.ns
 \* controller-level parent selector (CompositeController.spec.parentResource.labelSelector /
 \* DecoratorController resource rule: label AND annotation selector)
-CtlSel == IF "parentSel" \in DOMAIN cfg THEN [ml |-> IF "matchLabels" \in DOMAIN cfg.parentSel THEN cfg.parentSel.matchLabels ELSE <<>>, me |-> <<>>]
-          ELSE IF "dselLabels" \in DOMAIN cfg THEN [ml |-> IF "matchLabels" \in DOMAIN cfg.dselLabels THEN cfg.dselLabels.matchLabels ELSE <<>>, me |-> <<>>]
+SelMl(x, f) == IF f \in DOMAIN x THEN x[f] ELSE <<>>
+SelMe(x) == IF "matchExpressions" \in DOMAIN x
+            THEN [i \in DOMAIN x.matchExpressions |-> [key |-> x.matchExpressions[i].key, op |-> x.matchExpressions[i].operator,
+                                                        values |-> IF "values" \in DOMAIN x.matchExpressions[i] THEN x.matchExpressions[i].values ELSE <<>>]]
+            ELSE <<>>
+CtlSel == IF "parentSel" \in DOMAIN cfg THEN [ml |-> SelMl(cfg.parentSel, "matchLabels"), me |-> SelMe(cfg.parentSel)]
+          ELSE IF "dselLabels" \in DOMAIN cfg THEN [ml |-> SelMl(cfg.dselLabels, "matchLabels"), me |-> SelMe(cfg.dselLabels)]
           ELSE EmptySel
-CtlAnnSel == IF "dselAnn" \in DOMAIN cfg /\ "matchAnnotations" \in DOMAIN cfg.dselAnn
-             THEN [ml |-> cfg.dselAnn.matchAnnotations, me |-> <<>>] ELSE EmptySel
+CtlAnnSel == IF "dselAnn" \in DOMAIN cfg THEN [ml |-> SelMl(cfg.dselAnn, "matchAnnotations"), me |-> SelMe(cfg.dselAnn)] ELSE EmptySel
 CtlMatches(o) == Matches(CtlSel, o.labels) /\ Matches(CtlAnnSel, o.ann)
 \* desired children of the (single) hook answer of this sync, by key; namespace defaults to the parent's
 DesKey(c, d) == <<d.kind, IF d.ns = "" /\ d.kind \notin {"CThing"} THEN c.parent.ns ELSE d.ns, d.name>>
